@@ -595,8 +595,7 @@ def rest_digest(cls, hdr):
 
 def edit_plan(d):
     """for every E op: (affine token or '=', id of the non-consumable header bytes right after the edit, id that
-    update_header() would turn them into or '-'), obtained by replaying the edits on a scratch image; a save is
-    replayed as `update_header()` only"""
+    update_header() would turn them into or '-'), obtained by replaying the history on a scratch image"""
     import copy
     cls = d['cls']
     if not any(op[0] == 'E' for op in d['ops']):
@@ -617,7 +616,9 @@ def edit_plan(d):
                 tok = ','.join(str(int(v)) for row in op[2] for v in row)
             plan[j] = (tok, now, '-' if pend == now else pend)
         elif op[0] in ('S', 'OS', 'N'):
-            img.update_header()
+            # a healthy save of the scratch image: harmonises exactly when the real save gets as far as
+            # update_header() (not when the alias resolution / the MGH dtype= check raises first)
+            do_save(cls, img, False, op[1])
         elif op[0] in ('D', 'A'):
             try:
                 img.set_data_dtype(np.dtype(op[1]) if op[0] == 'D' else op[1])
